@@ -4,16 +4,16 @@ CONSTANTS
   Servers = {"a", "b"}
   Members = {"m1", "m2", "m3"}
   Dense = TRUE
-  RecheckAtApply = FALSE
+  RecheckAtApply = TRUE
   KeepTimers = FALSE
   CountAllWit = FALSE
-  RetryBlind = FALSE
-  MaxOps = 6
-  MaxPend = 1
+  RetryBlind = TRUE
+  MaxOps = 5
+  MaxPend = 0
   MaxWaits = 2
-  MaxParks = 0
+  MaxParks = 1
   EpochSels = {"cur"}
-  PairSels = {"cur"}
+  PairSels = {"cur", "old"}
   WaitModes = {"none", "good"}
   ReqServers = {"a"}
   EffectiveOnly = FALSE
